@@ -565,7 +565,6 @@ def run_case(case, obs):
     complex_cls = _is_complex_cls(cls) or cls == "ComplexEOFRotator"
     rot = cls in SINGLE_ROT or cls in CROSS_ROT
     has_ds = any(_has_ds(f) for f in case["fields"])
-    kinds = "+".join(f["kind"] for f in case["fields"])
 
     # ---- configuration -------------------------------------------------------------
     alphas = [1.0] * nf
@@ -616,7 +615,7 @@ def run_case(case, obs):
     obs.tag(
         cls=cls,
         fam=fam,
-        container=kinds,
+        container=[f["kind"] for f in case["fields"]],  # list: matchable context, not part of the grouping key
         has_dataset=has_ds,
         mixed_dims_dataset=bool(any(f["kind"] == "ds_mixed" for f in case["fields"])),
         one_sample_dim=bool(case["nsd"] == 1),
